@@ -21,11 +21,13 @@ VERIF = scratch.VERIF
 #   where = "<crate dir>"            : the witness becomes the integration test <crate dir>/tests/verif_<file> (public API only)
 #   where = "append:<repo rel path>" : the witness (a #[cfg(test)] module) is appended to that source file (private access)
 WITNESS = [
+    (r"uci_moves::Bitboard::san_suffix_fragment", "board", "inkayaku_board", "c05_check_detection.rs", "witness_c05_san"),
     (r"board_make::(Move::|Bitboard::)", "board", "inkayaku_board", "c03_make_unmake.rs", "witness_"),
     (r"Bitboard::(find_uci|make_uci|make_all_uci)", "board", "inkayaku_board", "c13_rejected_move.rs", "witness_find_uci|witness_make_uci"),
     (r"movegen::", "board", "inkayaku_board", "c01_legal_moves.rs", "witness_c01"),
     (r"uci_moves::Bitboard::(is_move_legal|is_any_move_legal)", "board", "inkayaku_board", "c13_rejected_move.rs", "witness_is_move_legal"),
     (r"history::", "engine_core", "inkayaku_engine_core", "c10_repetition.rs", "witness_c10"),
+    (r"san_suffix_fragment", "board", "inkayaku_board", "c05_check_detection.rs", "witness_c05_san"),
     (r"uci_to_pgn", "board", "inkayaku_board", "c13_rejected_move.rs", "witness_uci_to_pgn"),
     (r"SearchSlice::", "engine_core", "inkayaku_engine_core", "c09_interrupted_search.rs", "witness_c09"),
     (r"attacks::Bitboard::", "board", "inkayaku_board", "c05_check_detection.rs", "witness_c05"),
